@@ -1113,6 +1113,9 @@ def iterate(interp, v, lazy=False):
             if it is v:
                 return obj_next_items(interp, v)
             return iterate(interp, it, lazy)
+        if v.cls.lookup('__getitem__')[0] is None:
+            interp.throw(TypeError, "'%s' object is not iterable"
+                         % v.cls.name)
     if v is None or isinstance(v, (int, SInt, float, SReal, bool, SBool)):
         interp.throw(TypeError, "%s object is not iterable" % _tn(v))
     raise Unsupported('iteration over %r' % (v,))
